@@ -340,15 +340,10 @@ func ruleMapDisable(c *Ctx) []*Obligation {
 		key := c.FuncKey(fn) + "#enable-to-reference"
 		onNonNil, offNil, n := false, false, 0
 		bad := ""
-		for _, ci := range allCalls(fn) {
-			cc, ok := c.callTo(ci, pkgUtil, "CharReferenceMap", "AddInterval")
-			if !ok {
-				continue
-			}
-			n++
-			ref := callArgs(cc)[2]
-			side := 0 // 1 = enable true, 2 = enable false
-			for _, g := range guardsAt(ci.Block()) {
+		// does a set of guards fix `enable`? 0 = no, 1 = true, 2 = false
+		sideOf := func(gs []guard) int {
+			side := 0
+			for _, g := range gs {
 				cond, truth := g.atom()
 				if cond == ssa.Value(enable) {
 					if truth {
@@ -358,17 +353,62 @@ func ruleMapDisable(c *Ctx) []*Obligation {
 					}
 				}
 			}
+			return side
+		}
+		// the values ref can take when enable has the given side (1 true / 2 false), with their nil-ness
+		var valuesUnder func(ref ssa.Value, gs []guard, side int, depth int) (nils, nonNils, unknown int)
+		valuesUnder = func(ref ssa.Value, gs []guard, side int, depth int) (nils, nonNils, unknown int) {
+			if s0 := sideOf(gs); s0 != 0 && s0 != side {
+				return 0, 0, 0 // infeasible for this side
+			}
+			if phi, ok := ref.(*ssa.Phi); ok && depth > 0 {
+				for i, e := range phi.Edges {
+					a, b2, u := valuesUnder(e, guardsOnEdge(phi.Block().Preds[i], phi.Block()), side, depth-1)
+					nils, nonNils, unknown = nils+a, nonNils+b2, unknown+u
+				}
+				return
+			}
 			switch {
-			case side == 1 && !isNilConst(ref):
-				onNonNil = true
-			case side == 2 && isNilConst(ref):
-				offNil = true
-			case side == 0:
+			case isNilConst(ref):
+				return 1, 0, 0
+			case c.certainlyNonNil(ref, gs, 4):
+				return 0, 1, 0
+			}
+			return 0, 0, 1
+		}
+		for _, ci := range allCalls(fn) {
+			cc, ok := c.callTo(ci, pkgUtil, "CharReferenceMap", "AddInterval")
+			if !ok {
+				continue
+			}
+			n++
+			ref := callArgs(cc)[2]
+			gs := guardsAt(ci.Block())
+			nilT, nonT, unkT := valuesUnder(ref, gs, 1, 3)
+			nilF, nonF, unkF := valuesUnder(ref, gs, 2, 3)
+			depends := sideOf(gs) != 0
+			if phi, ok := ref.(*ssa.Phi); ok {
+				for i := range phi.Edges {
+					if sideOf(guardsOnEdge(phi.Block().Preds[i], phi.Block())) != 0 {
+						depends = true
+					}
+				}
+			}
+			switch {
+			case !depends:
 				bad = "the reference registered does not depend on a test of `enable` (a non-nil value such as `false` is stored when disabling)"
-			case side == 1:
+			case unkT+unkF > 0:
+				bad = "the reference registered is neither a nil nor a visibly non-nil value"
+			case nilT > 0:
 				bad = "enabling stores a nil reference"
-			case side == 2:
+			case nonF > 0:
 				bad = "disabling stores a non-nil reference"
+			}
+			if nonT > 0 {
+				onNonNil = true
+			}
+			if nilF > 0 {
+				offNil = true
 			}
 		}
 		if n == 0 {
